@@ -585,11 +585,15 @@ func (g *c16Gen) batch(hook string, pool []string) ([]c16Op, bool) {
 			kind := rng.Intn(3)
 			name := []string{"ug1", "uc1_total", "uh1"}[kind]
 			if rng.Chance(30) {
-				// always spelled with the placeholder: the ungrouped vecs are remembered under the name as
-				// written, so two spellings of one ungrouped name are kept apart from the generated histories
-				name = []string{"{PREFIX}ug2", "{PREFIX}uc2_total", "{PREFIX}uh2"}[kind]
+				name = []string{"ug2", "uc2_total", "uh2"}[kind]
+			}
+			// both spellings of an ungrouped name, too (one metric under the empty prefix)
+			if rng.Chance(25) {
+				name = c16PrefixTemplate + name
 				w.c.Note("name:with-{PREFIX}")
 			}
+			uname := name
+			name = w.resolve(name) // the label-name shape belongs to the metric, not to its spelling
 			shape, seen := w.ushape[name]
 			var lab map[string]string
 			if seen {
@@ -600,7 +604,7 @@ func (g *c16Gen) batch(hook string, pool []string) ([]c16Op, bool) {
 				w.ushape[name] = fmt.Sprint(s)
 				lab = g.labels(s)
 			}
-			o := c16Op{Name: name, Labels: lab}
+			o := c16Op{Name: uname, Labels: lab}
 			switch kind {
 			case 0:
 				o.Action, o.Value = "set", ip(rng.Range(-4, 20))
@@ -681,7 +685,7 @@ func (g *c16Gen) commit(hook string, ops []c16Op) {
 }
 
 func runC16(r *Run) {
-	r.Rule = "histories of 1..8 steps by 4 hooks through the real operation parser + MetricStorage.SendBatch on a private registry, observed by Gatherer.Gather() after every step. A step is one batch, or (22%) a CONCURRENT step: 2..4 batches of different hooks, each with its own group(s), sent by one goroutine each in a random start order while a gated Registerer (installed as MetricStorage.Registerer and as the vault's registerer) holds every first registration of a metric open until all calls were started; 70% of the concurrent steps let all their hooks report the same never-used grouped gauge and counter names. A concurrent step is judged against EVERY linearisation of its batches through the reference registry (return value of each call + scrape after all returned). Batches of 1..6 operations mixing up to 2 of 4 groups with ungrouped operations; metric names shared between groups; label sets over the names a, b, x, y (two sorting before `hook`, two after; each present with 30%) with ONE pool of 3 values for all names (equal values under different names), 10% explicit empty values, a `hook` label that must be overridden (15%); action/value and shortcut (`add`/`set`) forms, integer and half-fractional values, explicit expire at any position, 14% of the batches carry one invalid operation (10 kinds) at a random position. Generators stay outside the recorded finding classes (same series written by two groups, name used grouped and ungrouped, ungrouped label-name change, one name with two types), which are replayed as separate known cases. Non-trivial: >= 2 batches, at least one grouped and one valid batch; distinct = distinct op-line sequences. TEXT steps (30% of the sequential steps): the batch is spelled as the text of the metrics file a hook leaves behind (member order, blanks between all tokens, key case, six number spellings per value, \\u escapes, unknown members with nested brackets in strings, nulls for absent fields, duplicate keys; documents joined with or without blanks) and, in 35% of them, damaged in the shapes of harness/c04out.go (cut off inside the last document, stray closers before/between/after documents, trailing garbage, wrong JSON types per field, bad tokens, separators, top-level non-objects, an operation validation rejects; 4%: blank file); the text goes the way a hook's file goes: MetricOperationsFromFile + SendBatch with the hook label unless reading failed (what Hook.Run + handleRunHook do), 10% through a real bash hook and Hook.Run, and in operator worlds (4% of the cases: an assembled ShellOperator with a real hook manager and four bash hooks, its HookMetricStorage is the registry of the case) through the real queue handler taskHandler -> taskHandleHookRun -> handleRunHook. Whether a text is acceptable is decided by the Lean driver from the bytes (HookOutput.metricsOk); a rejected text must fail the execution and leave the scrape unchanged, an accepted one goes through the reference registry."
+	r.Rule = "histories of 1..8 steps by 4 hooks through the real operation parser + MetricStorage.SendBatch on a private registry, observed by Gatherer.Gather() after every step. A step is one batch, or (22%) a CONCURRENT step: 2..4 batches of different hooks, each with its own group(s), sent by one goroutine each in a random start order while a gated Registerer (installed as MetricStorage.Registerer and as the vault's registerer) holds every first registration of a metric open until all calls were started; 70% of the concurrent steps let all their hooks report the same never-used grouped gauge and counter names. A concurrent step is judged against EVERY linearisation of its batches through the reference registry (return value of each call + scrape after all returned). Batches of 1..6 operations mixing up to 2 of 4 groups with ungrouped operations; metric names shared between groups; label sets over the names a, b, x, y (two sorting before `hook`, two after; each present with 30%) with ONE pool of 3 values for all names (equal values under different names), 10% explicit empty values, a `hook` label that must be overridden (15%); action/value and shortcut (`add`/`set`) forms, integer and half-fractional values, explicit expire at any position, 14% of the batches carry one invalid operation (10 kinds) at a random position. Generators stay outside the recorded finding classes (same series written by two groups, name used grouped and ungrouped, ungrouped label-name change, one name with two types), which are replayed as separate known cases. Non-trivial: >= 2 batches, at least one grouped and one valid batch; distinct = distinct op-line sequences. TEXT steps (30% of the sequential steps): the batch is spelled as the text of the metrics file a hook leaves behind (member order, blanks between all tokens, key case, six number spellings per value, \\u escapes, unknown members with nested brackets in strings, nulls for absent fields, duplicate keys; documents joined with or without blanks) and, in 35% of them, damaged in the shapes of harness/c04out.go (cut off inside the last document, stray closers before/between/after documents, trailing garbage, wrong JSON types per field, bad tokens, separators, top-level non-objects, an operation validation rejects; 4%: blank file); the text goes the way a hook's file goes: MetricOperationsFromFile + SendBatch with the hook label unless reading failed (what Hook.Run + handleRunHook do), 10% through a real bash hook and Hook.Run, and in operator worlds (4% of the cases: an assembled ShellOperator with a real hook manager and four bash hooks, its HookMetricStorage is the registry of the case) through the real queue handler taskHandler -> taskHandleHookRun -> handleRunHook. Whether a text is acceptable is decided by the Lean driver from the bytes (HookOutput.metricsOk); a rejected text must fail the execution and leave the scrape unchanged, an accepted one goes through the reference registry. NAMES: 25% of the metric names (grouped and ungrouped, hot names of concurrent steps included) are spelled with the storage's {PREFIX} placeholder, 40% of the worlds give the storage the prefix p_ (else empty): both spellings of one metric occur in one history; op lines and scrape are compared on the RESOLVED name (the harness's own reading of the placeholder). GROUPS: 35% of the cases draw their groups from a pool of near-equal names that are different groups (surrounding blanks, tab, an all-blank group, letter case, inner blanks), 20% draw label values from such a pool ('1', ' 1', '1 ' / 'a', 'A' / '1', '01', '1.0')."
 	// ---- corpus: the repaired defects (must now hold) ----
 	r.One(0, func(c *Case, _ *Rng) {
 		c.Desc = "corpus: grouped {\"add\":1} shortcut counts once (was applied twice)"
@@ -895,6 +899,15 @@ func runC16(r *Run) {
 			w.send("h1", []c16Op{{Group: "ga", Action: "expire"}})
 		})
 	}
+	r.One(20, func(c *Case, _ *Rng) {
+		c.Desc = "corpus: one UNGROUPED metric in two spellings ({PREFIX}ug9 and ug9 under the empty prefix): gauge, counter, histogram; every operation updates the one series (was: the second spelling registered the name again, the panic was recovered and the operation dropped silently)"
+		c.Nontrivial = true
+		w := newC16World(c)
+		w.send("h1", []c16Op{{Name: "{PREFIX}ug9", Action: "set", Value: ip(2)}})
+		w.send("h1", []c16Op{{Name: "ug9", Action: "set", Value: ip(6)}})
+		w.send("h2", []c16Op{{Name: "uc9_total", Add: ip(3)}, {Name: "{PREFIX}uc9_total", Add: ip(4)}, {Name: "{PREFIX}uh9", Action: "observe", Value: ip(2), Buckets: true}, {Name: "uh9", Action: "observe", Value: ip(4), Buckets: true}})
+		w.send("h1", []c16Op{{Name: "{PREFIX}ug9", Action: "set", Value: ip(8)}})
+	})
 	r.One(19, func(c *Case, _ *Rng) {
 		c.Desc = "corpus text: groups that differ only in surrounding blanks / letter case are different groups, an all-blank group is a group (replaced, expirable), label values with surrounding blanks are different series"
 		c.Nontrivial = true
